@@ -148,7 +148,23 @@ function isNL(c) { return c === 10 || c === 13 || c === 0x2028 || c === 0x2029; 
 
 // sources are shared by the outputs of one scenario: tokenise each text once
 const SRC_CACHE = new Map();
-function sourceInfo(t) {
+// TypeScript / TSX originals cannot be tokenised by acorn: the token that starts
+// at a position is read off the text there (identifier run that does not continue
+// one, quoted string, number, or a single punctuation character)
+function looseTokenAt(text, o) {
+  const c = text[o];
+  if (c === undefined || /\s/.test(c)) return undefined;
+  if (/[A-Za-z_$]/.test(c)) {
+    if (o > 0 && /[A-Za-z0-9_$]/.test(text[o - 1])) return undefined;
+    const m = /^[A-Za-z_$][A-Za-z0-9_$]*/.exec(text.slice(o, o + 120));
+    return { t: 'ident', x: m[0], e: o + m[0].length };
+  }
+  if (c === '"' || c === "'") { const j = text.indexOf(c, o + 1); return j < 0 ? undefined : { t: 'string', x: text.slice(o, j + 1), e: j + 1 }; }
+  if (/[0-9]/.test(c)) { if (o > 0 && /[A-Za-z0-9_$.]/.test(text[o - 1])) return undefined; const m = /^[0-9.]+/.exec(text.slice(o, o + 40)); return { t: 'literal', x: m[0], e: o + m[0].length }; }
+  return { t: 'punct', x: c, e: o + 1 };
+}
+function sourceInfo(t, loose) {
+  if (loose) return { text: t, starts: lineStarts(t), tok: { toks: { get: o => looseTokenAt(t, o) }, error: null } };
   let v = SRC_CACHE.get(t);
   if (!v) {
     v = { text: t, starts: lineStarts(t), tok: tokenize(t) };
@@ -240,7 +256,7 @@ function checkJob(job) {
   stats.lines = gStarts.length;
   const gTok = tokenize(code);
   if (gTok.error) return { id: job.id, errors, stats, infra: 'cannot tokenise the generated code: ' + gTok.error };
-  const sInfo = srcText.map(t => t === null ? null : sourceInfo(t));
+  const sInfo = srcText.map(t => t === null ? null : sourceInfo(t, !!opts.looseSources));
   for (let i = 0; i < sInfo.length; i++) if (sInfo[i] && sInfo[i].tok.error) return { id: job.id, errors, stats, infra: `cannot tokenise ${map.sources[i]}: ${sInfo[i].tok.error}` };
   // the number of ';' must not exceed the number of lines of the generated code
   let maxLine = 0;
@@ -465,6 +481,97 @@ function rebaseJob(job) {
   return { id: job.id, errors, skipped, compared, record };
 }
 
+// ---- CSS ---------------------------------------------------------------------
+// job: {id, kind:'css', code, map, files, expect}.  Tokens are read off the text: a
+// marker token is a class / id selector, custom property, keyframes / animation
+// name, string or url body that carries a marker.
+const CSSMARK = /^(?:[.#"']|--|::?)?(mk_\d+(?:_[A-Za-z0-9]+)?)/;
+function cssMarkerAt(text, off) { const m = CSSMARK.exec(text.slice(off, off + 48)); return m ? m[1] : null; }
+function cssTokenStart(text, off) {
+  // a position where a CSS token can start: not inside a word
+  if (off >= text.length) return false;
+  const c = text[off];
+  if (/\s/.test(c)) return false;
+  if (/[A-Za-z0-9_-]/.test(c) && off > 0 && /[A-Za-z0-9_-]/.test(text[off - 1])) return false;
+  return true;
+}
+function checkCss(job) {
+  const errors = [], stats = { mappings: 0, with_source: 0, css_marker_true: 0, css_plain: 0, cover: 0, sources: 0, gen_markers: 0, gen_markers_mapped: 0 };
+  const err = (kind, msg, extra) => { if (errors.length < 40) errors.push(Object.assign({ kind, msg }, extra || {})); };
+  const expect = job.expect || {};
+  let map;
+  try { map = JSON.parse(job.map); } catch (e) { err('json', 'the map is not JSON: ' + e.message); return { id: job.id, errors, stats }; }
+  if (map.version !== 3) err('version', `version is ${JSON.stringify(map.version)}, not 3`);
+  if (typeof map.mappings !== 'string' || !Array.isArray(map.sources) || !Array.isArray(map.names)) { err('shape', 'mappings / sources / names have the wrong type'); return { id: job.id, errors, stats }; }
+  stats.sources = map.sources.length;
+  const files = job.files || {};
+  const srcText = map.sources.map((s, i) => { if (!(s in files)) { err('unknown-source', `sources[${i}] = ${JSON.stringify(s)} does not name an input file (known: ${Object.keys(files).join(', ')})`); return null; } return files[s]; });
+  if (new Set(map.sources).size !== map.sources.length) err('duplicate-source', 'sources lists one file twice: ' + JSON.stringify(map.sources));
+  if (expect.sourcesContent === true) {
+    if (!Array.isArray(map.sourcesContent) || map.sourcesContent.length !== map.sources.length) err('sources-content', 'sourcesContent is missing or has the wrong length');
+    else map.sourcesContent.forEach((c, i) => { if (srcText[i] !== null && c !== srcText[i]) err('sources-content', `sourcesContent[${i}] differs from the text of ${map.sources[i]}`); });
+  } else if (expect.sourcesContent === false && 'sourcesContent' in map) err('sources-content', 'sourcesContent present although it was switched off');
+  if (expect.groups) {
+    let total = 0;
+    for (const g of expect.groups) {
+      total += g.sources.length;
+      const i0 = map.sources.indexOf(g.sources[0]);
+      if (i0 < 0) { err('sources-not-concatenation', `the sources of ${g.file} are missing: ${JSON.stringify(g.sources)} not in ${JSON.stringify(map.sources)}`); continue; }
+      for (let j = 0; j < g.sources.length; j++) if (map.sources[i0 + j] !== g.sources[j]) { err('sources-not-concatenation', `the sources of ${g.file} must be the contiguous run ${JSON.stringify(g.sources)} but sources is ${JSON.stringify(map.sources)}`); break; }
+    }
+    if (map.sources.length !== total) err('sources-not-concatenation', `sources has ${map.sources.length} entries, the files contribute ${total}: ${JSON.stringify(map.sources)}`);
+  }
+  const dec = decodeMappings(map.mappings);
+  for (const e of dec.errors) err(e.kind, e.msg);
+  const code = job.code, gStarts = lineStarts(code);
+  const sStarts = srcText.map(t => t === null ? null : lineStarts(t));
+  const perSourceTrue = map.sources.map(() => 0);
+  const mappedGen = new Set();
+  let prev = null;
+  stats.mappings = dec.maps.length;
+  dec.maps.forEach((m, k) => {
+    const where = `mapping #${k} gen ${m.gl}:${m.gc}` + (m.n >= 4 ? ` -> ${map.sources[m.src]}@${m.ol}:${m.oc}` : '');
+    if (prev && prev.gl === m.gl && m.gc < prev.gc) err('unsorted', `${where}: generated column goes backwards (previous ${prev.gc})`);
+    const p = prev; prev = m;
+    const g = toOffset(code, gStarts, m.gl, m.gc);
+    if (g < 0) { err('gen-range', `${where}: generated position is outside the generated text`); return; }
+    if (m.n < 4) return;
+    stats.with_source++;
+    if (m.src < 0 || m.src >= map.sources.length) { err('source-index', `${where}: source index ${m.src} out of range`); return; }
+    if (m.ol < 0 || m.oc < 0) { err('negative', `${where}: negative original position`); return; }
+    if (srcText[m.src] === null) return;
+    const T = srcText[m.src];
+    const o = toOffset(T, sStarts[m.src], m.ol, m.oc);
+    if (o < 0) { err('orig-range', `${where}: original position is outside the text of ${map.sources[m.src]}`); return; }
+    const isCover = m.gc === 0 && p && p.n >= 4 && p.src === m.src && p.ol === m.ol && p.oc === m.oc;
+    if (isCover) { stats.cover++; return; }
+    let g2 = g;
+    while (g2 < code.length && /\s/.test(code[g2])) g2++;
+    const mo = cssMarkerAt(T, o), mg = cssMarkerAt(code, g2);
+    const gtxt = code.slice(g2, g2 + 24), otxt = T.slice(o, o + 24);
+    // two defects of the unchanged tree with their own kinds (known_findings.jsonl):
+    // a box shorthand re-created by the minifier (margin: 0 0 0 0 -> margin:0) is
+    // located at offset 0 of its file; the wrapper generated from the conditions of
+    // an @import (@media screen{...}) carries offsets of the IMPORTING file but is
+    // mapped through the imported file's line table and source index
+    if (/^margin\b/.test(gtxt) && !/^margin\b/.test(otxt)) { err('css-compacted-box-loc', `${where}: the compacted declaration ${JSON.stringify(gtxt)} is mapped to ${JSON.stringify(otxt)}`, { map: m }); return; }
+    if (expect.importConditions && /^(@media\b|screen\b|print\b)/.test(gtxt) && !/^(@media\b|screen\b|print\b)/.test(otxt)) { err('css-import-condition-loc', `${where}: the wrapper text ${JSON.stringify(gtxt)} generated from an @import condition is mapped to ${JSON.stringify(otxt)}`, { map: m }); return; }
+    if (mo !== null || mg !== null) {
+      if (mo === mg) { stats.css_marker_true++; perSourceTrue[m.src]++; mappedGen.add(g2); }
+      else err('untrue', `${where}: original text ${JSON.stringify(T.slice(o, o + 24))} but generated text ${JSON.stringify(code.slice(g2, g2 + 24))}`, { map: m, orig_marker: mo, gen_marker: mg });
+      return;
+    }
+    if (!cssTokenStart(T, o)) { err('orig-not-token', `${where}: no token starts at the original position (${JSON.stringify(T.slice(Math.max(0, o - 6), o))}|${JSON.stringify(T.slice(o, o + 16))})`, { map: m }); return; }
+    if (!cssTokenStart(code, g2)) { err('gen-not-token', `${where}: no token starts at the generated position (${JSON.stringify(code.slice(Math.max(0, g2 - 6), g2))}|${JSON.stringify(code.slice(g2, g2 + 16))})`, { map: m }); return; }
+    stats.css_plain++;
+  });
+  // selectors / names that carry a marker in the generated text: how many are mapped (statistic)
+  const re = /(?:[.#"']|--)mk_\d+/g; let mm;
+  while ((mm = re.exec(code)) !== null) { stats.gen_markers++; if (mappedGen.has(mm.index)) stats.gen_markers_mapped++; }
+  if (expect.everySourceMapped) perSourceTrue.forEach((c, i) => { if (c === 0 && srcText[i] !== null) err('no-true-mapping', `no mapping points at a marker of ${map.sources[i]}`); });
+  return { id: job.id, errors, stats };
+}
+
 module.exports = { decodeMappings, lineStarts, toOffset, toLineCol, tokenize, markerAt, checkJob };
 
 if (require.main === module) {
@@ -473,7 +580,7 @@ if (require.main === module) {
   process.stdin.on('data', d => { inp += d; }).on('end', () => {
     const req = JSON.parse(inp);
     const results = req.jobs.map(j => {
-      try { return j.kind === 'rebase' ? rebaseJob(j) : checkJob(j); } catch (e) { return { id: j.id, errors: [], stats: {}, infra: 'checker exception: ' + (e && e.stack || e) }; }
+      try { return j.kind === 'rebase' ? rebaseJob(j) : j.kind === 'css' ? checkCss(j) : checkJob(j); } catch (e) { return { id: j.id, errors: [], stats: {}, infra: 'checker exception: ' + (e && e.stack || e) }; }
     });
     process.stdout.write(JSON.stringify({ results }));
   });
